@@ -49,7 +49,7 @@ static void s1_child(void *a){
    cb_track_begin();
    for(i=0;i<t->n;i++){ cb_tid=0; b_alloc(&c[i]); }
    if (t->order==0){ /* op-level round robin */
-      do { live=0; for(i=0;i<t->n;i++) if(pos[i]<KINDS[c[i].kind].nops){ cb_tid=i+1; KINDS[c[i].kind].op(&c[i],pos[i]++); cb_tid=0; MC_INC(c_trans); live=1; mc_set_add(statesv,mc_mix(mc_mix(t->kind[0]*64+t->kind[1]*8+(t->n>2?t->kind[2]:9),pos[0]*100+pos[1]*10+pos[2]),t->n)); } } while(live);
+      do { live=0; for(i=0;i<t->n;i++) if(pos[i]<KINDS[c[i].kind].nops){ cb_tid=i+1; KINDS[c[i].kind].op(&c[i],pos[i]++); cb_tid=0; MC_INC(c_trans); live=1; mc_set_add(statesv,mc_mix(mc_mix(t->kind[0]*256+t->kind[1]*16+(t->n>2?t->kind[2]:15),pos[0]*100+pos[1]*10+pos[2]),t->n)); } } while(live);
    } else { /* serial orders: order-1 = rotation start, then reversed for odd */
       int k; for(k=0;k<t->n;k++){ i=((t->order-1)+k)%t->n; if((t->order-1)>=t->n) i=t->n-1-i; cb_tid=i+1; { int j; for(j=0;j<KINDS[c[i].kind].nops;j++){ KINDS[c[i].kind].op(&c[i],j); MC_INC(c_trans);} } cb_tid=0; }
    }
@@ -98,7 +98,7 @@ static void s2_one(s2run *r,const char *what){
    mc_case("s2","pair=%s first=%d npre=%d pre0=(T%d,step %ld->T%d) pre1=(T%d,step %ld->T%d)",names,r->s.first,r->s.npre,r->s.pre[0].tid,r->s.pre[0].step,r->s.pre[0].to,r->s.pre[1].tid,r->s.pre[1].step,r->s.pre[1].to);
    r->h[0]=r->h[1]=0;
    st=in_child(s2_child,r); MC_INC(c_sched); MC_INC(c_eval); MC_ADD(c_trans,1+r->s.npre+1);
-   mc_set_add(outcomes,mc_mix(mc_mix(r->h[0],r->h[1]),r->kind[0]*8+r->kind[1]));
+   mc_set_add(outcomes,mc_mix(mc_mix(r->h[0],r->h[1]),r->kind[0]*16+r->kind[1]));
    if (st!=0){ char sig[160]; snprintf(sig,sizeof sig,"crash:s2:%s",names); MC_INC(c_div); mc_fail(sig,"schedule child ended with status %x: %s first=%d pre0=(T%d,%ld) pre1=(T%d,%ld)",st,what,r->s.first,r->s.pre[0].tid,r->s.pre[0].step,r->s.pre[1].tid,r->s.pre[1].step); return; }
    for(i=0;i<2;i++) if(r->h[i]!=REFS->solo[r->kind[i]]){ char sig[160]; snprintf(sig,sizeof sig,"output_differs_from_solo:s2:%s",names); MC_INC(c_div);
       mc_fail(sig,"thread T%d (%s) produced %016llx under schedule [first=T%d; preempt T%d at yield %ld -> T%d%s], alone it produces %016llx",i+1,KINDS[r->kind[i]].name,(unsigned long long)r->h[i],r->s.first,r->s.pre[0].tid,r->s.pre[0].step,r->s.pre[0].to,r->s.npre>1?"; second preemption":"",(unsigned long long)REFS->solo[r->kind[i]]); break; }
@@ -140,7 +140,7 @@ int main(int argc,char **argv){
          (function, entry/exit) for all other pairs; thorough = every yield point of every pair */
       for(i=0;i<NKINDS;i++) for(j=i;j<NKINDS;j++){ int f, full = MC.tier || i==j || (i==0&&j==2); for(f=1;f<=2;f++){ int kk=f==1?i:j; long n= full?REFS->steps[kk]:REFS->nfx[kk],s; if(i==j&&f==2) continue; for(s=0;s<n;s+=chunk){ s2job jb={i,j,f,s,s+chunk<n?s+chunk:n,0,0,0,!full}; if(NJOBS2<cap) JOBS2[NJOBS2++]=jb; } } }
       if (b2){ /* two preemptions at first occurrences of distinct functions; same-kind pairs and pairs with the decoder */
-         for(i=0;i<NKINDS;i++) for(j=i;j<NKINDS;j++){ int f; if(!(i==j||i==2||j==2)) continue; for(f=1;f<=2;f++){ int ka=f==1?i:j,kb=f==1?j:i; long s; if(i==j&&f==2) continue; for(s=0;s<REFS->nfo[ka];s+=4){ s2job jb={i,j,f,s,s+4<REFS->nfo[ka]?s+4:REFS->nfo[ka],1,0,REFS->nfo[kb],0}; if(NJOBS2<cap) JOBS2[NJOBS2++]=jb; } } } }
+         for(i=0;i<NKINDS;i++) for(j=i;j<NKINDS;j++){ int f; if(!(i==j||i==2||j==2||i==8||j==8)) continue; for(f=1;f<=2;f++){ int ka=f==1?i:j,kb=f==1?j:i; long s; if(i==j&&f==2) continue; for(s=0;s<REFS->nfo[ka];s+=4){ s2job jb={i,j,f,s,s+4<REFS->nfo[ka]?s+4:REFS->nfo[ka],1,0,REFS->nfo[kb],0}; if(NJOBS2<cap) JOBS2[NJOBS2++]=jb; } } } }
       mc_par(NJOBS2,s2_item,NULL);
       { mc_ctr *st=mc_counter("states"),*dn=mc_counter("distinct_nontrivial"),*tv=mc_counter("traces_validated_against_impl"); *st=*c_sched; *dn=mc_set_count(outcomes); *tv=*c_sched; }
    }
